@@ -315,3 +315,15 @@ def same_up_to_conditioning(compute_a, compute_b, env, rng, rtol=1e-9) -> bool:
                 noise = np.maximum(noise, np.where(np.isfinite(d), d, np.inf))
         ok = (np.abs(a - b) <= rtol * (np.abs(a) + np.abs(b)) + 1e-12 + 1e3 * noise) | (~np.isfinite(a) & ~np.isfinite(b))
     return bool(np.all(ok))
+
+
+def rebuild(obj):
+    """A structurally equal object constructed afresh in *this* process (bottom-up through the constructors): its hash is
+    computed here, so it exposes cached state that an unpickled object may have carried over from another process."""
+    if not isinstance(obj, sp.Basic) or not obj.args:
+        return obj
+    args = [rebuild(a) for a in obj.args]
+    cls = type(obj)
+    if dataclasses.is_dataclass(cls):
+        return cls(*args, **{f.name: getattr(obj, f.name) for f in non_sympy_fields(cls)})
+    return obj.func(*args)
